@@ -20,7 +20,7 @@ func genC05(r *Rng, tier string, idx int) *Program {
 	p.Cfg = genConfig(r)
 	p.Cfg.LevelMs = []int64{3000, 20000}[:r.Range(1, 2)]
 	n := r.Range(8, 40)
-	w := []int{8, 10, 14, 2, 2, 5, 4, 8, 2}
+	w := []int{8, 10, 14, 2, 2, 5, 4, 12, 6}
 	p.Ops = genHistory(r, &p.Cfg, n, w, 0.05)
 	// fault assignment over client call indices; 25% of the runs are fault-free
 	// (same generator) so that the relaxed oracle cannot hide an ordinary bug.
@@ -40,11 +40,48 @@ func genC05(r *Rng, tier string, idx int) *Program {
 			if !enabled[k] {
 				continue
 			}
-			p.Faults = append(p.Faults, Fault{Call: call, Kind: k, Arg: int64([]int{0, 1, 50, 99, 100, 120, 700, 5000}[r.Intn(8)])})
+			arg := int64([]int{0, 1, 50, 99, 100, 120, 700, 5000}[r.Intn(8)])
+			p.Faults = append(p.Faults, Fault{Call: call, Kind: k, Arg: arg})
+			// bursts: a fault that outlasts a retry budget (the broken stream plus
+			// the following re-opens all fail)
+			if r.Chance(0.25) {
+				n := r.Range(2, 6)
+				for j := 1; j <= n; j++ {
+					kk := k
+					if r.Chance(0.5) {
+						kk = "fail_before"
+					}
+					p.Faults = append(p.Faults, Fault{Call: call + j, Kind: kk, Arg: arg})
+				}
+				call += n
+			}
+		}
+		// storms on one call kind: e.g. every download breaks mid-stream for a while
+		// (beyond the resumable reader's retry budget) while listing and uploads work
+		for k := 0; k < r.Pick([]int{5, 3, 2}); k++ {
+			on := PickOf(r, []string{"open", "open", "write", "list", "delete"})
+			kind := map[string][]string{"open": {"mid_error", "short_read", "fail_before"}, "write": {"short_upload", "fail_before", "fail_after"},
+				"list": {"fail_before", "iter_error"}, "delete": {"fail_before", "fail_after"}}[on]
+			p.Faults = append(p.Faults, Fault{Call: r.Intn(6*n + 10), Kind: PickOf(r, kind), Arg: int64([]int{0, 101, 120, 400, 3000}[r.Intn(5)]), On: on, N: r.Range(3, 9)})
 		}
 		p.Variant = "faults"
 	} else {
 		p.Variant = "fault-free"
+	}
+	// compaction ladder (40% of the runs): level-1 rounds, then a level-2
+	// compaction that has to download its sources from the replica - the place
+	// where download faults beyond the retry budget matter.
+	if r.Chance(0.4) {
+		if len(p.Cfg.LevelMs) < 2 {
+			p.Cfg.LevelMs = []int64{3000, 20000}
+		}
+		for k := 0; k < r.Range(2, 3); k++ {
+			p.Ops = append(p.Ops, appOp(genTxn(r, &p.Cfg)), Op{Kind: "ls_sync_wait"}, Op{Kind: "sleep", Ms: p.Cfg.LevelMs[0] + 500}, Op{Kind: "ls_compact", Level: 1})
+		}
+		if p.Variant == "faults" && r.Chance(0.7) {
+			p.Faults = append(p.Faults, Fault{Call: len(p.Ops), Kind: PickOf(r, []string{"mid_error", "short_read"}), Arg: int64([]int{101, 120, 400, 3000}[r.Intn(4)]), On: "open", N: r.Range(4, 12)})
+		}
+		p.Ops = append(p.Ops, Op{Kind: "sleep", Ms: p.Cfg.LevelMs[1] + 500}, Op{Kind: "ls_compact", Level: 2}, Op{Kind: "ls_l0_retention"}, Op{Kind: "ls_sync_wait"})
 	}
 	// fault-free suffix: release application locks, stop faults, catch up.
 	p.Ops = append(p.Ops, appOp(Step{K: "hold_rollback"}), appOp(Step{K: "reader_end"}), Op{Kind: "faults_off"},
